@@ -12,3 +12,5 @@ def check(ctx: Ctx) -> None:
     CT.r_async_declared(ctx, "R18.5")
     # the containment argument (R18.3) is made for argparse's default reading: errors go through error(), -h through exit(), no files are read
     CT.r_parser_config(ctx, "R18.6")
+    # "conversion failures are answered with a message": every argument text goes through its converter (only the sentinel object is exempt)
+    CT.r_fresh_conversion(ctx, "R18.7")
